@@ -45,16 +45,14 @@ func c17Read(c *Ctx, r *Report) {
 	const lenP = 10
 	for _, cs := range cases {
 		name := fmt.Sprintf("len(p)=%d,total=%v,local=%v", lenP, cs.t, cs.l)
-		sc := &Scenario{Name: name, Params: map[string]SV{"recv": symOpaque("tc"), "p0": symSlice("p", lenP)}, Heap: map[string]SV{}}
-		set := func(f string, l lim) {
-			if l.present {
-				sc.Heap["tc."+f] = symRef(f, false)
-			} else {
-				sc.Heap["tc."+f] = symNil()
-			}
+		// the state of the throttled connection is the one Handle builds for this configuration (whatever fields
+		// it is kept in): the handler-wide limiter is "totalLimiter", the one made for the connection "localLimiter"
+		state, installed, herr := c17InstalledState(c, cs.t.present, cs.l.present)
+		if herr != "" {
+			r.bad("C17.R1", fnName, name, c.pos(fn.Pos()), "undecided: "+herr)
+			continue
 		}
-		set("totalLimiter", cs.t)
-		set("localLimiter", cs.l)
+		sc := &Scenario{Name: name, Params: map[string]SV{"recv": {K: "struct", Desc: installed}, "p0": symSlice("p", lenP)}, Heap: state}
 		bursts := map[string]int64{"totalLimiter": cs.t.burst, "localLimiter": cs.l.burst}
 		sc.Call = func(callee string, args []SV, ev *symEval, st *symState) (SV, bool) {
 			switch {
@@ -73,8 +71,7 @@ func c17Read(c *Ctx, r *Report) {
 			}
 			return nil
 		}
-		// the receiver is a struct value spilled to a cell: fields are read through "cell:tc#k.field"; map them
-		paths, err := evalPathsRecvStruct(fn, sc, "tc")
+		paths, err := evalPaths(fn, sc)
 		if err != nil || len(paths) == 0 {
 			r.bad("C17.R1", fnName, name, c.pos(fn.Pos()), fmt.Sprintf("undecided: %v", err))
 			continue
@@ -153,6 +150,60 @@ func c17Read(c *Ctx, r *Report) {
 		r.check(len(p1) == 0, "C17.R1", fnName, name, c.pos(fn.Pos()), fmt.Sprintf("%d paths, batch=%d", len(paths), batch), strings.Join(dedup(p1), "\n"))
 		r.check(len(p4) == 0, "C17.R4", fnName, name, c.pos(fn.Pos()), "pass-through", strings.Join(dedup(p4), "\n"))
 	}
+}
+
+// c17InstalledState evaluates Handler.Handle for a configuration with/without a handler-wide and a per-connection
+// limit and returns the memory of the throttled connection it installs (keys are relative to the returned name).
+func c17InstalledState(c *Ctx, total, local bool) (map[string]SV, string, string) {
+	fn := c.Fn("modules/l4throttle.(*Handler).Handle")
+	if fn == nil {
+		return nil, "", "Handler.Handle not found"
+	}
+	burst := int64(0)
+	if local {
+		burst = 1
+	}
+	sc := &Scenario{Name: "state", Params: map[string]SV{"recv": symRef("h", false), "p0": symRef("cx", false), "p1": symRef("next", false)},
+		Heap: map[string]SV{"h.ReadBytesPerSecond": symInt(0), "h.ReadBurstSize": symInt(burst), "h.Latency": symInt(0), "h.totalLimiter": symRef("totalLimiter", false), "cx.Conn": symRef("rawconn", false), "cx.Context": symRef("ctx", false)},
+	}
+	if !total {
+		sc.Heap["h.totalLimiter"] = symNil()
+	}
+	sc.Call = func(callee string, args []SV, ev *symEval, st *symState) (SV, bool) {
+		switch {
+		case strings.HasSuffix(callee, "rate.NewLimiter"):
+			return symRef("localLimiter", false), true
+		case strings.HasSuffix(callee, "zap.Logger).Named"):
+			return symRef("logger", false), true
+		}
+		return SV{}, false
+	}
+	paths, err := evalPaths(fn, sc)
+	if err != nil {
+		return nil, "", err.Error()
+	}
+	for _, p := range paths {
+		if p.Outcome != "return" {
+			continue
+		}
+		installed := ""
+		for _, e := range p.Trace {
+			if e.Kind == "store" && e.What == "cx.Conn" {
+				installed = e.Args[0]
+			}
+		}
+		if installed == "" {
+			continue
+		}
+		out := map[string]SV{}
+		for k, v := range p.Heap {
+			if strings.HasPrefix(k, installed+".") || k == installed {
+				out[k] = v
+			}
+		}
+		return out, installed, ""
+	}
+	return nil, "", "Handle installs no throttled connection for this configuration"
 }
 
 // evalPathsRecvStruct evaluates a method with a struct value receiver whose fields are given in
@@ -254,19 +305,35 @@ func c17Handle(c *Ctx, r *Report, rule string) {
 					continue
 				}
 				if installed != "" {
-					get := func(f string) SV { return p.Heap[installed+"."+f] }
-					if get("Conn").Desc != "rawconn" {
-						problems = append(problems, "the throttled connection does not wrap the previous cx.Conn (wraps "+get("Conn").Desc+"): the stream is cut or bypasses the limiter")
+					// what the installed connection holds, wherever its fields keep it
+					holds := map[string]int{}
+					var held []string
+					for k, v := range p.Heap {
+						if strings.HasPrefix(k, installed+".") && v.Desc != "" && !(v.Known && v.Nil) {
+							holds[v.Desc]++
+							held = append(held, strings.TrimPrefix(k, installed+".")+"="+v.Desc)
+						}
 					}
-					if get("totalLimiter").Desc != wantTotal {
-						problems = append(problems, "the handler-wide limiter is not attached to this connection (totalLimiter="+get("totalLimiter").Desc+"): the total limit no longer holds summed over all connections")
+					sort.Strings(held)
+					if holds["rawconn"] != 1 {
+						problems = append(problems, "the throttled connection does not wrap the previous cx.Conn (holds "+strings.Join(held, ", ")+"): the stream is cut or bypasses the limiter")
 					}
-					ll := get("localLimiter")
-					if local && ll.Desc != "newLimiter" {
-						problems = append(problems, "a per-connection limit is configured but the connection gets localLimiter="+ll.Desc)
+					if wantTotal != "nil" && holds[wantTotal] != 1 {
+						problems = append(problems, "the handler-wide limiter is not attached to this connection (holds "+strings.Join(held, ", ")+"): the total limit no longer holds summed over all connections")
 					}
-					if !local && !(ll.Known && ll.Nil) {
-						problems = append(problems, "no per-connection limit is configured but the connection gets localLimiter="+ll.Desc)
+					if wantTotal == "nil" && holds["h.totalLimiter"] != 0 {
+						problems = append(problems, "no total limit is configured but the connection gets a total limiter")
+					}
+					if local && holds["newLimiter"] != 1 {
+						problems = append(problems, "a per-connection limit is configured but the connection gets no limiter of its own (holds "+strings.Join(held, ", ")+")")
+					}
+					if !local && holds["newLimiter"] != 0 {
+						problems = append(problems, "no per-connection limit is configured but the connection gets a limiter of its own")
+					}
+					for d := range holds {
+						if strings.Contains(d, "Limiter") && d != "newLimiter" && d != "h.totalLimiter" {
+							problems = append(problems, "the connection gets the limiter "+d+", which is neither the handler-wide one nor one made for this connection")
+						}
 					}
 				} else {
 					installedBeforeNext = true // nothing to meter: passing the connection on unchanged is the same behaviour
@@ -322,34 +389,79 @@ func c17Limiters(c *Ctx, r *Report, rule string) {
 			if !strings.HasSuffix(calleeID(ci), "x/time/rate.NewLimiter") {
 				continue
 			}
-			call, ok := ci.(*ssa.Call)
+			call0, ok := ci.(*ssa.Call)
 			if !ok {
 				continue
 			}
-			n++
-			args := ci.Common().Args
-			rl := leafSet(c.originsIP(fn, args[0], 0), false)
-			bl := leafSet(c.originsIP(fn, args[1], 0), false)
-			key := fmt.Sprintf("NewLimiter#%d", n)
-			scope := ""
-			for rateF := range pairs {
-				if len(rl) == 1 && rl[0] == "field:"+hname+"."+rateF {
-					scope = rateF
+			// a constructor helper shared by both scopes is judged per call site (what this caller passes and where
+			// this caller puts the result)
+			type inst struct {
+				fn          *ssa.Function
+				rate, burst ssa.Value
+				result      *ssa.Call
+			}
+			insts := []inst{{fn, ci.Common().Args[0], ci.Common().Args[1], call0}}
+			strip := func(v ssa.Value) ssa.Value {
+				for {
+					switch x := v.(type) {
+					case *ssa.Convert:
+						v = x.X
+					case *ssa.ChangeType:
+						v = x.X
+					default:
+						return v
+					}
 				}
 			}
-			if scope == "" {
-				r.bad(rule, fname(fn), key, c.ipos(ci), "the limiter's rate is not exactly one of the configured rate options (it derives from "+strings.Join(rl, ", ")+"): the bytes admitted in a window are no longer bounded by burst + configured rate x T")
-				continue
+			if pr, isP := strip(ci.Common().Args[0]).(*ssa.Parameter); isP {
+				if pb, isP2 := strip(ci.Common().Args[1]).(*ssa.Parameter); isP2 {
+					sites, escapes := c.callSitesOf(fn)
+					ir, ib := paramIndex(fn, pr), paramIndex(fn, pb)
+					if !escapes && len(sites) > 0 && ir >= 0 && ib >= 0 {
+						insts = nil
+						for _, cs := range sites {
+							if cv, isCall := cs.(*ssa.Call); isCall && ir < len(cs.Common().Args) && ib < len(cs.Common().Args) {
+								insts = append(insts, inst{cs.Parent(), cs.Common().Args[ir], cs.Common().Args[ib], cv})
+							}
+						}
+					}
+				}
 			}
-			wantB := "field:" + hname + "." + pairs[scope][0]
-			if !(len(bl) == 1 && bl[0] == wantB) {
-				r.bad(rule, fname(fn), key, c.ipos(ci), "the burst of the limiter built on "+scope+" derives from "+strings.Join(bl, ", ")+", expected only "+wantB)
-				continue
+			for _, in := range insts {
+				fn, call := in.fn, in.result
+				n++
+				rl := leafSet(c.originsIP(fn, in.rate, 0), false)
+				bl := leafSet(c.originsIP(fn, in.burst, 0), false)
+				key := fmt.Sprintf("NewLimiter#%d", n)
+				scope := ""
+				for rateF := range pairs {
+					if len(rl) == 1 && rl[0] == "field:"+hname+"."+rateF {
+						scope = rateF
+					}
+				}
+				if scope == "" {
+					r.bad(rule, fname(fn), key, c.ipos(ci), "the limiter's rate is not exactly one of the configured rate options (it derives from "+strings.Join(rl, ", ")+"): the bytes admitted in a window are no longer bounded by burst + configured rate x T")
+					continue
+				}
+				wantB := "field:" + hname + "." + pairs[scope][0]
+				if !(len(bl) == 1 && bl[0] == wantB) {
+					r.bad(rule, fname(fn), key, c.ipos(ci), "the burst of the limiter built on "+scope+" derives from "+strings.Join(bl, ", ")+", expected only "+wantB)
+					continue
+				}
+				// where the limiter goes: the field of its scope
+				// (the handler-wide one into the handler, shared by its connections; the per-connection one into an
+				// object of the connection, never into the handler)
+				used := c17LimiterUse(c, call, 0)
+				inHandler := 0
+				for _, u := range used {
+					if strings.HasPrefix(u, hname+".") {
+						inHandler++
+					}
+				}
+				good := len(used) > 0 && ((scope == "TotalReadBytesPerSecond" && inHandler == len(used)) || (scope == "ReadBytesPerSecond" && inHandler == 0))
+				want := pairs[scope][1]
+				r.check(good, rule, fname(fn), key, c.ipos(ci), "rate "+scope+", burst "+pairs[scope][0]+", kept in "+strings.Join(used, ", "), "the limiter built from "+scope+" is kept in "+strings.Join(used, ", ")+"; the "+want+" belongs "+map[bool]string{true: "to the handler (shared by all its connections)", false: "to the connection it was made for, not to the handler"}[scope == "TotalReadBytesPerSecond"])
 			}
-			// where the limiter goes: the field of its scope
-			used := c17LimiterUse(c, call, 0)
-			want := pairs[scope][1]
-			r.check(len(used) == 1 && used[0] == want, rule, fname(fn), key, c.ipos(ci), "rate "+scope+", burst "+pairs[scope][0]+", used as "+want, "the limiter built from "+scope+" is used as "+strings.Join(used, ", ")+", expected "+want)
 		}
 	}
 	if n == 0 {
@@ -393,8 +505,8 @@ func c17LimiterUse(c *Ctx, v ssa.Value, depth int) []string {
 				if x.Val != v {
 					continue
 				}
-				if _, _, f, ok := fieldAddr(x.Addr); ok {
-					found[f] = true
+				if _, sn, f, ok := fieldAddr(x.Addr); ok {
+					found[sn+"."+f] = true
 				} else if al, ok := x.Addr.(*ssa.Alloc); ok {
 					for _, r2 := range *al.Referrers() {
 						if u, ok := r2.(*ssa.UnOp); ok {
